@@ -26,7 +26,7 @@ def trace_inputs(d, gb, prop, object_bits, extra_flags, entry, cex_defs=None):
     outj = os.path.join(d, 'trace.json')
     cmd = ['cbmc', gb, '--property', prop, '--trace', '--json-ui'] + extra_flags
     if '--object-bits' not in extra_flags: cmd += ['--object-bits', str(object_bits)]
-    rc, _ = run(cmd, cwd=d, timeout=900, out=outj)
+    rc, _ = run(cmd, cwd=d, timeout=300, out=outj)
     if rc == 'timeout': return None
     try: msgs = json.load(open(outj))
     except Exception: return None
@@ -284,9 +284,61 @@ def packet_kind_replay(doc, inp, r, work, root, repo):
     doc['native'] = 'reproduced' if p.returncode != 0 else 'not-reproduced'
     doc['replay_driver'] = code; doc['replay_argv'] = argv
 
+def clause_replay(doc, inp, r, work, root, repo):
+    """const accessor of a typed payload class under its validity predicate: construct the object from the counterexample bytes,
+    call the accessor natively and evaluate the FAILED CLAUSE ITSELF (compiled natively) on the result"""
+    q = doc.get('function_cxx') or ''
+    clause = doc.get('clause') or ''
+    m = re.match(r'^__CPROVER_ensures\((.*)\)\s*$', clause)
+    if not m or '::' not in q: doc['native'] = 'no-driver'; return
+    expr = m.group(1)
+    cls, meth = q.rsplit('::', 1)
+    native_cls = {'ASAM::CMP::CanPayloadBase': 'ASAM::CMP::CanPayload'}.get(cls, cls)
+    bufs = [o for o in inp['objects'] if 'bytes' in o]
+    n = None
+    for o in inp['objects']:
+        for k, v in o.get('fields', {}).items():
+            if k.endswith('payloadData.n') and v: n = int(re.sub(r'[a-z]+$', '', v))
+    if not bufs or n is None or n > len(bufs[-1]['bytes']) // 2: doc['native'] = 'no-counterexample'; return
+    bs = bytes.fromhex(bufs[-1]['bytes'])[:n]
+    e = expr.replace('__CPROVER_return_value', 'rv')
+    e = re.sub(r'this->(__base\.)+payloadData\.d', 'd', e); e = re.sub(r'this->(__base\.)+payloadData\.n', 'n', e)
+    gk = inp.get('ghost', {}).get('g_k', 0)
+    code = PRE + spec_native_prelude(root) + '''#undef VIEW_IN
+#define VIEW_IN(p, len, d, n) ((len) == 0 || ((const uint8_t*)(p) >= (d) && (const uint8_t*)(p) + (len) <= (d) + (n)))
+struct svn { const char* p; size_t n; };
+template <class T> static T conv(T v) { return v; }
+static svn conv(std::string_view v) { return svn{v.data(), v.size()}; }
+int main(int argc, char** argv) {
+  FILE* f = fopen(argv[1], "rb"); std::vector<uint8_t> in; int c; while ((c = fgetc(f)) != EOF) in.push_back((uint8_t)c); fclose(f);
+  g_k = strtoull(argv[2], 0, 10);
+  %s obj(in.data(), in.size());
+  const uint8_t* d = obj.getRawPayload(); size_t n = obj.getLength(); (void)d; (void)n;
+  auto rv = conv(static_cast<const %s&>(obj).%s());
+  bool holds = (%s);
+  printf("clause_holds=%%d\\n", holds);
+  return holds ? 0 : 3;
+}
+''' % (native_cls, cls, meth, e)
+    exe = build_driver(work, repo, 'drv_clause_' + hashlib.md5((q + e).encode()).hexdigest()[:8], code)
+    os.makedirs(os.path.join(root, 'replay', 'out'), exist_ok=True)
+    binp = os.path.join(root, 'replay', 'out', 'input-' + hashlib.md5(bs).hexdigest()[:12] + '.bin')
+    open(binp, 'wb').write(bs)
+    argv = [binp, str(gk)]
+    p = subprocess.run([exe] + argv, stdout=subprocess.PIPE, stderr=subprocess.PIPE, timeout=120)
+    doc['native_call'] = f"{cls}(bytes of {os.path.relpath(binp, root)}, size={len(bs)}).{meth}()  then the failed clause evaluated natively"
+    doc['native_observed'] = p.stdout.decode().strip(); doc['native_stderr'] = p.stderr.decode()[-800:]
+    doc['native_expected'] = 'clause_holds=1 and no sanitizer report'
+    doc['native'] = 'reproduced' if p.returncode != 0 else 'not-reproduced'
+    doc['replay_driver'] = code; doc['replay_argv'] = argv
+    doc['inputs']['objects'] = [o if 'bytes' not in o or len(o['bytes']) < 4096 else {'name': o['name'], 'bytes_file': os.path.relpath(binp, root), 'length': len(o['bytes']) // 2} for o in inp['objects']]
+
+ACCESSOR_CLASSES = ('ASAM_CMP_CanPayloadBase_', 'ASAM_CMP_LinPayload_', 'ASAM_CMP_EthernetPayload_', 'ASAM_CMP_AnalogPayload_', 'ASAM_CMP_CaptureModulePayload_', 'ASAM_CMP_InterfacePayload_')
+
 def family_of(r, root):
     name = r['name']
     if (r['enforce'] or '') in VALIDATORS: return validator_replay
+    if name == 'h_' + (r['enforce'] or '') and (r['enforce'] or '').startswith(ACCESSOR_CLASSES) and re.search(r'_get(Data|SamplesCount|DeviceDescription|SerialNumber|HardwareVersion|SoftwareVersion|VendorData\w*|StreamIds\w*)$', r['enforce']): return clause_replay
     if (r['enforce'] or '').endswith('Packet_create') or 'Packet_ctor__CmpHeader_MessageType' in (r['enforce'] or ''): return packet_kind_replay
     if 'SegmentedPacket_ctor__uint8' in (r['enforce'] or '') or (r['enforce'] or '').endswith('SegmentedPacket_addSegment'): return segpkt_replay
     import gen_layout_specs as G
